@@ -19,3 +19,7 @@ package util
 //@ trusted
 //@ pure
 //@ ensures result == popcount16(bs.bits) && 0 <= result && result <= 16
+
+//@ func RemoveFileIfExists
+//@ property C09
+//@ modifies nothing
